@@ -8,6 +8,7 @@ import (
 	"log"
 	"net"
 	"net/http"
+	"runtime"
 	"strings"
 	"sync"
 	"sync/atomic"
@@ -33,6 +34,23 @@ type Event struct {
 	Args []any
 	// ReadyState of the session sampled when the event was recorded ("" if n/a)
 	State string
+	// Gid is the goroutine that recorded the event: two events of one goroutine are ordered by
+	// the program, two events of different goroutines at one virtual instant need not be
+	Gid int64
+}
+
+// Goid returns the id of the calling goroutine (parsed from its stack header).
+func Goid() int64 {
+	var b [40]byte
+	n := runtime.Stack(b[:], false)
+	var id int64
+	for _, c := range b[len("goroutine "):n] {
+		if c < '0' || c > '9' {
+			break
+		}
+		id = id*10 + int64(c-'0')
+	}
+	return id
 }
 
 func (e Event) String() string {
@@ -52,11 +70,13 @@ type Tap struct {
 }
 
 func (t *Tap) Add(e Event) int64 {
+	gid := Goid()
 	t.mu.Lock()
 	defer t.mu.Unlock()
 	t.seq++
 	e.Seq = t.seq
 	e.At = time.Since(t.start)
+	e.Gid = gid
 	t.events = append(t.events, e)
 	return e.Seq
 }
